@@ -154,18 +154,19 @@ def _list_unit(fname, cls, item, prop):
         prop=prop, name=fname, target="shroud/declast.py::%s.%s" % (cls, fname),
         params={"self": PARSER}, defs=DEFS,
         # called with the '(' as current token (peeked by the caller)
-        requires=["synced(self)", "self.token.typ == 'LPAREN'"] + STREAM,
+        requires=["synced(self)", "self.token.typ == 'LPAREN'", "self.pos >= 0"] + STREAM,
         callees=merged(HOOKS, {("Parser", "next"): _next, ("Parser", item): _item_parser(item), ("Parser", "error_msg"): _error_msg}),
         callee_units={("Parser", "have"): have, ("Parser", "mustbe"): mustbe},
-        loops={0: {"inv": ["synced(self)", "self.pos >= 1",
+        init="p0 = self.pos\n",
+        loops={0: {"inv": ["synced(self)", "self.pos >= p0 + 1",
                            "TYP(self.pos - 1) == 'LPAREN' or TYP(self.pos - 1) == 'COMMA'",
                            # a comma is followed by another item, never directly by the closing parenthesis
                            "implies(TYP(self.pos - 1) == 'COMMA', self.token.typ != 'RPAREN')"],
                    "decreases": "EOFPOS() + 1 - self.pos"}},
-        ensures=["synced(self)", "self.pos >= 2",
+        ensures=["synced(self)", "self.pos >= p0 + 2",
                  # the list is closed by ')' and the token before it is not a ',': f(a,) is not silently accepted
                  "TYP(self.pos - 1) == 'RPAREN'", "TYP(self.pos - 2) != 'COMMA'"],
-        raises=["RuntimeError", "NotImplementedError"],
+        raises=["RuntimeError", "NotImplementedError"], modifies=["self"],
     )
     u.spec_funcs = SPEC
     u.list_kinds = {"params": "opaque"}
@@ -240,3 +241,117 @@ def _next_unit(exhausted, first):
 
 NEXT_UNITS = [_next_unit(e, f) for e in (True, False) for f in (True, False)]
 UNITS += NEXT_UNITS
+
+
+# ---------------------------------------------------------------------------------------------------------
+# C09/C11: ExprParser.expression (precedence climbing), primary, identifier.  The tree is abstracted by the precedence
+# of its root: `rootprec` = the table precedence of the operator for a BinaryOp, ATOM for everything a primary returns.
+#   expression(m) returns the LONGEST expression all of whose top-level operators bind at least as tightly as m:
+#     - every BinaryOp it builds has a left operand binding at least as tightly as the operator and a right operand
+#       binding strictly tighter (left associativity) -- asserted where the node is built, from the table OPINFO_MAP
+#       read from the source;
+#     - on return the current token is not an operator of precedence >= m (nothing that belongs to the expression is left);
+#   a unary sign applies to a primary only (its operand's rootprec is ATOM): -2*3 is (-2)*3.
+# The recursive calls are used through these same contracts.
+ATOM = 100
+_NODE = ("obj", "ExprNode", {"rootprec": "int", "oprec": "int"})
+
+
+def _mk_node(kind):
+    def call(ex, st, args, kw, node):
+        f = {"rootprec": VInt(ATOM), "oprec": VInt(ATOM)}
+        if kind == "BinaryOp":
+            tbl = ex.resolve_constant(__import__("pyvc.values", fromlist=["VNS"]).VNS("declast"), "OPINFO_MAP", st)
+            ent = ex.dict_get(st.heap[tbl.oid], args[1], st, node, True)
+            f["rootprec"] = ent.items[0]
+        if kind == "UnaryOp":
+            f["oprec"] = st.heap[args[1].oid].f["rootprec"]
+        return st.alloc(HObj("ExprNode", f))
+    return VFun("%s(...)[ghost: precedence of the root]" % kind, call)
+
+
+def _peek(ref):
+    def call(ex, st, args, kw, node):
+        from pyvc.values import VBool
+        return VBool(st.heap[st.heap[ref.oid].f["token"].oid].f["typ"].e == args[0].e)
+    return VFun("RecursiveDescent.peek[self.token.typ == typ]", call)
+
+
+EXPR_DEFS = dict(DEFS)
+EXPR_DEFS.update({
+    "isop": (["t"], "t in OPINFO_MAP"),
+    "precof": (["t"], "OPINFO_MAP[t].prec"),
+    # what a successful sub-parser leaves behind: it consumed at least one token, did not start at the end of the text,
+    # and the last token it consumed is neither a comma nor EOF
+    "consumed": (["p", "p0"], "p.pos > p0 and p0 < EOFPOS() and TYP(p.pos - 1) != 'COMMA' and TYP(p.pos - 1) != 'EOF'"),
+})
+
+peek = Unit(
+    prop="C09", name="peek", target="shroud/declast.py::RecursiveDescent.peek",
+    params={"self": PARSER, "typ": "str"}, defs=DEFS, requires=["synced(self)"], modifies=[], result="bool",
+    ensures=["result == (self.token.typ == typ)", "synced(self)"], raises=[],
+)
+peek.spec_funcs = SPEC
+
+
+def _expr_units():
+    primary = Unit(
+        prop="C09", name="ExprParser.primary", target="shroud/declast.py::ExprParser.primary",
+        params={"self": PARSER}, defs=EXPR_DEFS, requires=["synced(self)"] + STREAM, modifies=["self"], result=_NODE,
+        init="p0 = self.pos\n",
+        ensures=["synced(self)", "consumed(self, p0)",
+                 # a primary is atomic, and a sign inside it applies to a primary
+                 "result.rootprec == %d" % ATOM, "result.oprec == %d" % ATOM,
+                 # an opening parenthesis is closed (C17: unbalanced text is never silently accepted)
+                 "implies(TYP(p0) == 'LPAREN', TYP(self.pos - 1) == 'RPAREN')"],
+        raises=["RuntimeError", "NotImplementedError"],
+        callees=merged(HOOKS, {("Parser", "next"): _next, ("Parser", "error_msg"): _error_msg}),
+    )
+    identifier = Unit(
+        prop="C09", name="ExprParser.identifier", target="shroud/declast.py::ExprParser.identifier",
+        params={"self": PARSER}, defs=EXPR_DEFS, requires=["synced(self)"] + STREAM, modifies=["self"], result=_NODE,
+        init="p0 = self.pos\n",
+        ensures=["synced(self)", "consumed(self, p0)", "result.rootprec == %d" % ATOM, "result.oprec == %d" % ATOM],
+        raises=["RuntimeError", "NotImplementedError"],
+        callees=merged(HOOKS, {("Parser", "next"): _next}),
+    )
+    expression = Unit(
+        prop="C09", name="ExprParser.expression", target="shroud/declast.py::ExprParser.expression",
+        params={"self": PARSER, "min_prec": "int"}, defs=EXPR_DEFS,
+        requires=["synced(self)", "min_prec >= 0 and min_prec <= %d" % ATOM] + STREAM, modifies=["self"], result=_NODE,
+        init="p0 = self.pos\n",
+        loops={0: {"inv": ["synced(self)", "consumed(self, p0)",
+                           "atom_lhs.rootprec >= min_prec",
+                           # what follows binds no tighter than what has been built: the tree may become its left operand
+                           "implies(isop(self.token.value), atom_lhs.rootprec >= precof(self.token.value))"]}},
+        ghost=[("before", "atom_lhs = BinaryOp(atom_lhs, op, atom_rhs)",
+                "assert atom_lhs.rootprec >= prec\n"
+                "assert implies(assoc == 'LEFT', atom_rhs.rootprec > prec)\n"
+                "assert implies(assoc != 'LEFT', atom_rhs.rootprec >= prec)\n")],
+        ensures=["synced(self)", "consumed(self, p0)", "result.rootprec >= min_prec",
+                 # maximal: nothing that belongs to this expression is left in the stream
+                 "not (isop(self.token.value) and precof(self.token.value) >= min_prec)"],
+        raises=["RuntimeError", "NotImplementedError"],
+        callees=merged(HOOKS, {("Parser", "next"): _next}),
+    )
+    expression.defaults = {"min_prec": 0}          # def expression(self, min_prec=0)
+    for u in (primary, identifier, expression):
+        u.spec_funcs = SPEC
+        for k in ("BinaryOp", "Constant", "ParenExpr", "UnaryOp", "Identifier"):
+            u.global_callees[k] = _mk_node(k)
+        u.pure_callees = ["BinaryOp", "Constant", "ParenExpr", "UnaryOp", "Identifier", "enter", "exit", "info", "peek"]
+        u.list_kinds = {"args": "opaque"}
+    primary.callee_units = {("Parser", "peek"): peek, ("Parser", "have"): have, ("Parser", "mustbe"): mustbe,
+                            ("Parser", "identifier"): identifier, ("Parser", "expression"): expression,
+                            ("Parser", "primary"): primary}
+    identifier.callee_units = {("Parser", "peek"): peek, ("Parser", "mustbe"): mustbe, ("Parser", "argument_list"): argument_list}
+    expression.callee_units = {("Parser", "primary"): primary, ("Parser", "expression"): expression}
+    return [peek, primary, identifier, expression]
+
+
+EXPR_UNITS = _expr_units()
+
+# ExprParser.argument_list now calls expression through the unit above (call-by-contract) instead of a trusted item contract
+argument_list.callees = dict((k, v) for k, v in argument_list.callees.items() if k != ("Parser", "expression"))
+argument_list.callee_units = dict(argument_list.callee_units)
+argument_list.callee_units[("Parser", "expression")] = EXPR_UNITS[3]
